@@ -607,7 +607,7 @@ def search(ctx, np, util, config, sf_actual, icases=()):
     import soundfile
     import torch
 
-    nrt = ctx.scale(120, 1500)
+    nrt = ctx.scale(400, 3000)
 
     def same(a, b):
         return isinstance(a, np.ndarray) and a.dtype == b.dtype and a.shape == b.shape and a.tobytes() == b.tobytes()
@@ -816,7 +816,7 @@ def search(ctx, np, util, config, sf_actual, icases=()):
         except Exception:  # noqa: BLE001
             pass
     keys = [".wav", ".npy", ".pt", ".npz", ".hdf5", ".sph", ".flac", ".ogg", ".aiff", "flac", "wav", "npy", ".json", "", "ark:x", "x|", ".txt", "utt.1.npy"]
-    for i in range(ctx.scale(2000, 30000)):
+    for i in range(ctx.scale(4000, 40000)):
         u = r.random()
         if u < 0.3:
             data = bytes(r.randrange(256) for _ in range(r.choice([0, 1, 4, 16, 64, 300])))
@@ -896,7 +896,7 @@ def run(ctx):
             ctx.fail("model no longer compiles against the regenerated gen/ReadSignal.v", dict(correspondence="coq/C11/Model.v", log_tail=out[-1500:]), kind="tie", no_input=True)
 
     # ---- correspondence 1: suffix inference
-    n_names = ctx.scale(1500, 20000)
+    n_names = ctx.scale(4000, 30000)
     names = gen_names(r, n_names)
     icases = []
     for nm in names:
@@ -907,7 +907,7 @@ def run(ctx):
         ctx.case(dict(fn="infer", sf=sfv, name=nm, observed=obs), nontrivial=True)
         ctx.count("infer:" + (obs[1] if obs[0] == "ok" else "Err " + obs[1]))
     # ---- correspondence 2: read_signal
-    n_read = ctx.scale(700, 8000)
+    n_read = ctx.scale(2500, 12000)
     rcases = []
     for i in range(n_read):
         k = gen_read_case(r, i, sf_actual)
@@ -923,15 +923,15 @@ def run(ctx):
                     dtype=k["dtype"], key=k["key"], sf=k["sf"], content=k["content"], observed=obs[:2] if obs[0] == "err" else obs)
         ctx.case(cobj, nontrivial=obs[0] == "ok" or obs[1] in ("EIO", "EValue", "EKey", "EType"))
     # ---- correspondence 3: wds_read_signal on intact containers / mismatched keys / random bytes
-    n_wds = ctx.scale(250, 2500)
+    n_wds = ctx.scale(800, 4000)
     wcases = []
     for i in range(n_wds):
         u = r.random()
         if u < 0.75:
             kind = r.choice(["wav", "npy", "pt", "npz", "h5", "sph", "snd"])
             c = gen_content(r, kind, None)
-            if kind == "snd" and c["fmt"] == "wav":
-                c["fmt"] = "flac" if c["subtype"] in ("PCM_16", "PCM_24") else "aiff"
+            while kind == "snd" and c["fmt"] == "wav":
+                c = gen_content(r, kind, None)  # a .wav key goes to the wave reader
             data = container_bytes(np, c)
             right = WDS_KEY.get(kind) or "." + c["fmt"]
             key = r.choice([right, right, right, "utt%d" % i + right, right[1:], ".json", "ark:a" + right, "x" + right + "|", right.upper()])
@@ -1040,3 +1040,72 @@ def run(ctx):
         "a force_as that contradicts the content is only generated for readers certain to reject it (hdf5, sph, pt)",
     ]
     return C.finish(ctx, "proof")
+
+
+# --------------------------------------------------------------------------
+# ./check C11 --replay replay/C11-<seed>.json
+
+
+def replay(ctx, rp):
+    """Re-run the recorded case on the implementation (and, where the case is a
+    correspondence case, on the model).  Exit status 1 if it still fails."""
+    C.ensure_impl_path()
+    import importlib
+    import json
+
+    import numpy as np
+
+    util = importlib.import_module("pydrobert.speech.util")
+    config = importlib.import_module("pydrobert.speech.config")
+    os.makedirs(FILES, exist_ok=True)
+    f = rp.get("failure", {})
+    info = f.get("replay", {})
+    inp = info.get("input", info)
+    print("recorded:", f.get("what", "")[:400])
+    regenerate(ctx)
+
+    def model_says(body):
+        ans, log = C.coq_eval(ctx, "replay_case", body, REQ)
+        if ans is None:
+            print("model evaluation failed:\n" + (log or "")[-800:])
+            return None
+        return ans[0]
+
+    fn = inp.get("function")
+    if fn == "_infer_force_as_from_rfilename" or info.get("check") == "infer":
+        name, sfv = inp["name"], inp["soundfile_types"]
+        obs = observe_infer(util, config, sfv, name)
+        doc = ref_infer(name, sfv)
+        m = model_says("Eval vm_compute in (infer ascii_word [%s] %s).\n" % ("; ".join(cstr(x) for x in sfv), cstr(name)))
+        print("implementation:", obs, " documented rules:", doc, " model:", m)
+        return 0 if tuple(obs) == doc else 1
+    if fn == "read_signal":
+        k = inp["case"]
+        obs = run_read_case(np, util, config, k)
+        print("implementation:", obs if obs[0] != "ok" else (obs[1]["dt"], obs[1]["shape"], obs[1]["data"][:20]))
+        if obs[0] in ("ok", "err"):
+            m = model_says("Eval vm_compute in (let k := %s in (case_ok k, run_case k)).\n" % coq_read_case(k, obs))
+            print("model (agrees, answer):", (m or "")[:600])
+            return 0 if m and m.lstrip("( ").startswith("true") else 1
+        return 1
+    if fn == "wds_read_signal":
+        c = inp["content"]
+        data = container_bytes(np, c) if c.get("kind") != "bad" else b""
+        old = config.SOUNDFILE_SUPPORTED_FILE_TYPES
+        config.SOUNDFILE_SUPPORTED_FILE_TYPES = set(inp["soundfile_types"])
+        try:
+            res = wds_call(util, inp["key"], data)
+        finally:
+            config.SOUNDFILE_SUPPORTED_FILE_TYPES = old
+        print("implementation:", res[0], None if res[1] is None else getattr(res[1], "shape", res[1]))
+        return 1 if res[0] == "raised" else 0
+    if info.get("check") in ("wds_raises", "wds_never_raises") and "data_hex" in inp:
+        data = bytes.fromhex(inp["data_hex"])
+        if inp.get("data_len", len(data)) != len(data):
+            print("note: only the first %d of %d bytes were recorded" % (len(data), inp["data_len"]))
+        res = wds_call(util, inp["key"], data)
+        print("implementation:", res[0], res[1] if res[0] == "raised" else type(res[1]).__name__)
+        return 1 if res[0] == "raised" else 0
+    print(json.dumps(rp, indent=1)[:4000])
+    print("(no automatic replay for this kind of failure: re-run ./check C11 with VERIF_SEED=%s)" % rp.get("seed"))
+    return 0
